@@ -184,9 +184,13 @@ Definition feed_stateless (n : net) (a : addr) (known : bool) (r : raw) : res un
   | Some _ => Ok (nmk n [] [] [NWConnless a WUnexpected] ROk None)
   end.
 
+(* fix (defect #21): a peer the application has not accepted yet has no connection state; its
+   `Connection` stays untouched until `accept`, datagrams from its address are handled statelessly *)
 Definition net_feed (n : net) (e : env) (a : addr) (r : raw) : res unit nout :=
   match pid_from_addr (n_peers n) a with
-  | Some (pid, p) => feed_peer n e a pid p r
+  | Some (pid, p) =>
+    if is_unconnected (p_conn p) then feed_stateless n a true r
+    else feed_peer n e a pid p r
   | None => feed_stateless n a false r
   end.
 
@@ -269,9 +273,13 @@ Definition net_step (n : net) (e : env) (o : nop) : res unit nout :=
     | None => Panic site_invalid_pid
     | Some p =>
       if negb (is_unconnected (p_conn p)) then Panic site_reject_not_pending else
-      let* o1 := peer_call n e pid p (OpDisconnect reason) in
-      let* n2 := remove_peer (no_net o1) pid in
-      Ok (nmk n2 (no_sent o1) [] [] ROk None)
+      (* fix (defect #23): the pending peer's connection cannot send the Close itself
+         (Connection::disconnect on an unconnected connection is unreachable!()): the endpoint
+         sends a plain Close, without a token, through its stateless packet builder *)
+      if existsb (fun b => b =? 0) reason then Panic site_reason_nul else
+      if MAX_PACKETSIZE <? control_size params6 None (Close reason) then Panic site_builder_capacity else
+      let* n2 := remove_peer n pid in
+      Ok (nmk n2 [(p_addr p, DControl None 0 (Close reason))] [] [] ROk None)
     end
   | NTick =>
     let* (ps, s) := tick_all e (n_peers n) in
